@@ -14,7 +14,7 @@
 (* Variant "pinned" (Mode = "pinned") is the algorithm of the pinned tree     *)
 (* (stop when the total size repeats; sizes recomputed from scratch), kept as *)
 (* a named deviation: TLC finds both the wrong layouts and the oscillation.   *)
-EXTENDS Integers, Sequences, FiniteSets, TLC
+EXTENDS Integers, Sequences, FiniteSets, TLC, SequencesExt
 CONSTANTS R, MaxLen, Fills, MaxPass, Mode
 
 Names == {"a", "b"}
@@ -43,9 +43,7 @@ NamesData(p, i) == LET js == {j \in (i + 1)..Len(p) : ~IsLab(p[j])} IN
                    js # {} /\ p[CHOOSE j \in js : \A j2 \in js : j <= j2].k = "data"
 
 \* one pass of the for-loop: acc = [off, lv, rv, sz, offs, ch]
-RECURSIVE Sweep(_, _, _, _)
-Sweep(p, i, po, acc) ==
-  IF i > Len(p) THEN acc ELSE
+SweepStep(p, i, po, acc) ==
   LET d  == p[i]
       o0 == IF d.k = "data" \/ (Mode = "fixed" /\ IsLab(d) /\ NamesData(p, i)) THEN Align(acc.off) ELSE acc.off
       lv1 == IF IsLab(d) THEN [acc.lv EXCEPT ![d.n] = o0] ELSE acc.lv
@@ -60,9 +58,11 @@ Sweep(p, i, po, acc) ==
              ELSE IF d.k = "abs" THEN lv1[d.n] \div 4
              ELSE IF Mode = "fixed" THEN (lv1[d.n] - o0) - nsz ELSE (lv1[d.n] - o0) - ILen(lv1[d.n], o0)
       chr == isref /\ (nrv # acc.rv[i] \/ nsz # acc.sz[i])
-      size == CASE IsLab(d) -> 0 [] d.k = "data" -> 4 [] d.k = "fill" -> d.n [] OTHER -> nsz
-  IN Sweep(p, i + 1, po, [off |-> o0 + size, lv |-> lv1, rv |-> [acc.rv EXCEPT ![i] = nrv], sz |-> [acc.sz EXCEPT ![i] = nsz],
-                          offs |-> Append(acc.offs, o0), ch |-> acc.ch \/ chl \/ chr])
+      size == CASE IsLab(d) -> 0 [] d.k = "data" -> 4 [] d.k = "fill" -> d.n [] d.k = "imm" -> SizeOf(d.v) [] d.k = "opr" -> 1 [] OTHER -> nsz
+  IN [off |-> o0 + size, lv |-> lv1, rv |-> [acc.rv EXCEPT ![i] = nrv], sz |-> [acc.sz EXCEPT ![i] = nsz],
+                          offs |-> Append(acc.offs, o0), ch |-> acc.ch \/ chl \/ chr]
+\* (iterated with FoldLeft, not recursion: real programs have thousands of directives)
+Sweep(p, i0, po, acc) == FoldLeft(LAMBDA a, i : SweepStep(p, i, po, a), acc, [j \in 1..Len(p) |-> j])
 
 Progs == UNION {[1..n -> Alphabet] : n \in 1..MaxLen}
 Defined(p) == \A i \in 1..Len(p) : p[i].k \in {"rel", "abs"} => \E j \in 1..Len(p) : IsLab(p[j]) /\ p[j].n = p[i].n
@@ -88,7 +88,7 @@ Stop == /\ st = "run" /\ ~Continue
 Next == Pass \/ Stop
 Spec == Init /\ [][Next]_vars /\ WF_vars(Next)
 
-SizeAt(i) == LET d == prog[i] IN CASE IsLab(d) -> 0 [] d.k = "data" -> 4 [] d.k = "fill" -> d.n [] OTHER -> sz[i]
+SizeAt(i) == LET d == prog[i] IN CASE IsLab(d) -> 0 [] d.k = "data" -> 4 [] d.k = "fill" -> d.n [] d.k = "imm" -> SizeOf(d.v) [] d.k = "opr" -> 1 [] OTHER -> sz[i]
 RelOK(i) == offs[i] + sz[i] + rv[i] = lv[prog[i].n] /\ Encodable(rv[i], sz[i])
 AbsOK(i) == lv[prog[i].n] % 4 = 0 /\ rv[i] * 4 = lv[prog[i].n] /\ Encodable(rv[i], sz[i])
 LabOK(i) == \* a label names the next emitted directive (the aligned DATA word if that is DATA)
